@@ -27,7 +27,7 @@ func runC12(p *core.Prog, r *core.Result) {
 		"R12.3 a target's record path is work/<kind>s/<one URL-escaped component derived from package and name>",
 		"R12.4 the project's target and module tables are keyed only by printed labels ((*Label).String())",
 		"R12.6 (necessary for canonicity) every package stored in a Label is canonical by construction: a Clean/Join result, another label's package, \"\" or \"//\"",
-		"R12.7 (parsing never crashes) every index and slice expression of package label is in range on every path, decided by a difference-bound abstract interpretation of the SSA (loop invariants by widening/narrowing, branch facts, immutable string contents, case analysis over short-circuit diamonds); the lazybuf methods are excepted by a frozen table (their safety is the caller-side invariant w <= r of Clean)",
+		"R12.7 (parsing never crashes) every index and slice expression of package label is in range on every path, decided by a difference-bound abstract interpretation of the SSA (loop invariants by widening/narrowing, branch facts, immutable string contents, case analysis over short-circuit diamonds); sites on the fields of a lazybuf inside its methods are excepted (their safety is the caller-side invariant w <= r of Clean)",
 		"R12.5 (part of 'parsing never crashes') every string slice in package label whose bound derives from an Index*/LastIndex* result on the sliced string is in range under the established found-ness fact",
 	}
 	r.NotDecided = []string{"print/parse round trip and canonicity of labels for all strings (behavioural)", "in-range-ness of the seven index/slice expressions inside the lazybuf methods (needs the caller-side invariant 'bytes written <= bytes read' of Clean; listed as information by R12.7)", "panics other than index/slice out of range in package label (nil map writes, failed assertions: none present today)"}
@@ -48,7 +48,52 @@ func runC12(p *core.Prog, r *core.Result) {
 		}
 	}
 	r.Floor("R12.1", len(userParams), 1, "path-list parameters of target()")
-	isSanitiser := func(c *ssa.Call) bool { cal := core.Callee(c); return cal == sl || cal == rsp }
+	// a helper of the package is a sanitising wrapper when none of its string parameters reaches one of its results
+	// except through sourceLabel / repoSourcePath
+	wrapperCache := map[*ssa.Function]bool{}
+	var sanitisingWrapper func(h *ssa.Function) bool
+	sanitisingWrapper = func(h *ssa.Function) bool {
+		if v, ok := wrapperCache[h]; ok {
+			return v
+		}
+		wrapperCache[h] = false
+		if h == nil || h.Blocks == nil || h.Pkg != bt.Pkg || h == lsf || h.Name() == "loadFunction" {
+			return false
+		}
+		calls := false
+		for _, c := range core.Calls(h) {
+			if cal := core.Callee(c); cal == sl || cal == rsp {
+				calls = true
+			}
+		}
+		if !calls {
+			return false
+		}
+		for _, ret := range core.ReturnsOf(h) {
+			for _, rv := range core.RetVals(ret) {
+				raw := core.DependsOn(rv, core.SliceOpts{Stores: true, ThroughCall: func(c *ssa.Call) bool {
+					cal := core.Callee(c)
+					return cal != sl && cal != rsp
+				}}, func(x ssa.Value) bool {
+					prm, ok := x.(*ssa.Parameter)
+					if !ok {
+						return false
+					}
+					b, isB := prm.Type().Underlying().(*types.Basic)
+					return isB && b.Info()&types.IsString != 0
+				})
+				if raw {
+					return false
+				}
+			}
+		}
+		wrapperCache[h] = true
+		return true
+	}
+	isSanitiser := func(c *ssa.Call) bool {
+		cal := core.Callee(c)
+		return cal == sl || cal == rsp || sanitisingWrapper(cal)
+	}
 	rawFlow := func(v ssa.Value) bool {
 		// does v depend on a user path parameter without passing through a sanitiser result?
 		return core.DependsOn(v, core.SliceOpts{Stores: true, ThroughCall: func(c *ssa.Call) bool { return !isSanitiser(c) }}, func(x ssa.Value) bool {
@@ -328,6 +373,7 @@ func runC14(p *core.Prog, r *core.Result) {
 		"R14.1 the path GC marks for a target, the path records are read from and the path they are renamed onto are all targetInfoPath of the target's label",
 		"R14.2 every live target and source is marked (loop over Project.targets without filter); the index file and the temp directory are marked under the names their writers use",
 		"R14.3 marking a path marks all its parents up to the project root",
+		"R14.5 the sweep prunes the walk (SkipDir) only below a missing path or a directory, never after handling a file: every stale record and stray temporary of a directory is visited",
 		"R14.4 the sweep removes only entries of the build-state directory walk that are not marked; GC reaches no other file-system mutator",
 	}
 	r.NotDecided = []string{"equality of the executed sets of later builds with and without GC (behavioural)", "interaction with a stale index (dawn gc loads by index)"}
@@ -431,10 +477,51 @@ func runC14(p *core.Prog, r *core.Result) {
 		r.Check(okLoop, "R14.2", "dawn.(*Project).GC#marks-every-target", p.InstrPos(in), "every entry of Project.targets (targets and sources alike) is marked, unconditionally", "not every entry of Project.targets is marked (missing loop or a filter): records of live targets or sources are deleted and they rebuild")
 	}
 	// index.json and temp
-	joinConsts := func(c ssa.CallInstruction) (base string, parts []string) {
-		call, ok := c.(*ssa.Call)
-		if !ok || !core.IsCallTo(call, "path/filepath", "Join") {
+	var joinConstsV func(v ssa.Value, subst map[*ssa.Parameter]ssa.Value, depth int) (base string, parts []string)
+	baseOf := func(e ssa.Value, subst map[*ssa.Parameter]ssa.Value) string {
+		if prm, ok := e.(*ssa.Parameter); ok && subst != nil {
+			if a, ok := subst[prm]; ok {
+				e = a
+			}
+		}
+		for _, f := range []string{"work", "root", "temp"} {
+			if core.LoadOfField(e, pkgRoot, "Project", f) {
+				return f
+			}
+		}
+		if _, isParam := e.(*ssa.Parameter); isParam {
+			return "root"
+		}
+		return ""
+	}
+	joinConstsV = func(v ssa.Value, subst map[*ssa.Parameter]ssa.Value, depth int) (base string, parts []string) {
+		call, ok := v.(*ssa.Call)
+		if !ok {
 			return "", nil
+		}
+		if !core.IsCallTo(call, "path/filepath", "Join") {
+			// a path helper of the package: func indexPath(work string) string { return filepath.Join(work, "index.json") }
+			h := core.Callee(call)
+			if h == nil || h.Blocks == nil || !core.InModule(h) || depth > 2 {
+				return "", nil
+			}
+			rets := core.ReturnsOf(h)
+			if len(rets) != 1 || len(rets[0].Results) != 1 {
+				return "", nil
+			}
+			sub := map[*ssa.Parameter]ssa.Value{}
+			for i, prm := range h.Params {
+				if i < len(call.Call.Args) {
+					a := call.Call.Args[i]
+					if ap, ok := a.(*ssa.Parameter); ok && subst != nil {
+						if aa, ok := subst[ap]; ok {
+							a = aa
+						}
+					}
+					sub[prm] = a
+				}
+			}
+			return joinConstsV(rets[0].Results[0], sub, depth+1)
 		}
 		s, ok := call.Call.Args[0].(*ssa.Slice)
 		if !ok {
@@ -446,13 +533,12 @@ func runC14(p *core.Prog, r *core.Result) {
 		}
 		for i, e := range elems {
 			if i == 0 {
-				for _, f := range []string{"work", "root", "temp"} {
-					if core.LoadOfField(e, pkgRoot, "Project", f) {
-						base = f
+				base = baseOf(e, subst)
+				if base == "" {
+					// a directory computed by an inner Join (or path helper): flatten
+					if b, inner := joinConstsV(e, subst, depth+1); b != "" || inner != nil {
+						base, parts = b, append(parts, inner...)
 					}
-				}
-				if _, isParam := e.(*ssa.Parameter); isParam {
-					base = "root"
 				}
 				continue
 			}
@@ -463,6 +549,13 @@ func runC14(p *core.Prog, r *core.Result) {
 			}
 		}
 		return
+	}
+	joinConsts := func(c ssa.CallInstruction) (base string, parts []string) {
+		call, ok := c.(*ssa.Call)
+		if !ok {
+			return "", nil
+		}
+		return joinConstsV(call, nil, 0)
 	}
 	marked := map[string]bool{}
 	for _, c := range markCalls {
@@ -523,23 +616,73 @@ func runC14(p *core.Prog, r *core.Result) {
 		if !ok {
 			return
 		}
-		// key is a phi of the parameter and filepath.Dir of itself
-		if ph, ok := mu.Key.(*ssa.Phi); ok {
-			hasParam, hasDir := false, false
-			for _, e := range ph.Edges {
-				if prm, ok := e.(*ssa.Parameter); ok && prm == mark.Params[0] {
-					hasParam = true
-				}
-				if c, ok := e.(*ssa.Call); ok && core.IsCallTo(c, "path/filepath", "Dir") && c.Call.Args[0] == ssa.Value(ph) {
-					hasDir = true
-				}
+		// the key marked inside a loop is obtained by filepath.Dir from the key of the previous iteration (which
+		// starts at the parameter): param, Dir(param), Dir(Dir(param)), ...
+		if !core.Reaches(mu.Block(), mu.Block(), false) {
+			return
+		}
+		inLoop := func(b *ssa.BasicBlock) bool { return core.Reaches(b, b, false) }
+		iterated := core.DependsOn(mu.Key, core.SliceOpts{}, func(v ssa.Value) bool {
+			c, ok := v.(*ssa.Call)
+			if !ok || !core.IsCallTo(c, "path/filepath", "Dir") {
+				return false
 			}
-			if hasParam && hasDir && core.Reaches(mu.Block(), mu.Block(), false) {
-				okParents = true
-			}
+			// the argument comes from the previous iteration (a loop phi) and, at the start, from the parameter
+			fromPhi := core.DependsOn(c.Call.Args[0], core.SliceOpts{}, func(x ssa.Value) bool {
+				ph, ok := x.(*ssa.Phi)
+				return ok && inLoop(ph.Block())
+			})
+			fromParam := core.DependsOn(c.Call.Args[0], core.SliceOpts{ThroughCall: func(c2 *ssa.Call) bool { return core.IsCallTo(c2, "path/filepath", "Dir") }}, func(x ssa.Value) bool { return x == ssa.Value(mark.Params[0]) })
+			return fromPhi && fromParam
+		})
+		if iterated {
+			okParents = true
 		}
 	})
+	// the path itself is marked too (a key that is the parameter, not only its parents)
+	okSelf := false
+	core.Instrs(mark, func(in ssa.Instruction) {
+		if mu, ok := in.(*ssa.MapUpdate); ok && core.DependsOn(mu.Key, core.SliceOpts{}, func(x ssa.Value) bool { return x == ssa.Value(mark.Params[0]) }) {
+			okSelf = true
+		}
+	})
+	r.Check(okSelf, "R14.3", "dawn.(*Project).GC$mark#self", p.Pos(mark.Pos()), "the path handed to the marker is itself marked", "the marker marks only parent directories, not the path it is given: every record file is swept")
 	r.Check(okParents, "R14.3", "dawn.(*Project).GC$mark#parents", p.Pos(mark.Pos()), "marking a path marks the path and then, repeatedly, its parent directory", "marking does not walk up the parent directories: the sweep removes a directory that contains live records")
+
+	// ---- R14.5 the sweep visits every entry: it prunes (SkipDir) only below a path that does not exist or below a
+	// directory; SkipDir returned for a *file* makes WalkDir skip the remaining entries of that file's directory
+	nSkip := 0
+	for _, ret := range core.ReturnsOf(sweep) {
+		for _, v := range core.RetVals(ret) {
+			ld, ok := v.(*ssa.UnOp)
+			if !ok {
+				continue
+			}
+			g, ok := ld.X.(*ssa.Global)
+			if !ok || g.Pkg == nil || g.Pkg.Pkg.Path() != "io/fs" || (g.Name() != "SkipDir" && g.Name() != "SkipAll") {
+				continue
+			}
+			nSkip++
+			construct := fmt.Sprintf("dawn.(*Project).GC$sweep#prune-%d", nSkip)
+			if g.Name() == "SkipAll" {
+				r.Bad("R14.5", construct, p.InstrPos(ret), "the sweep can stop the whole walk (SkipAll): stale records behind that point are never collected")
+				continue
+			}
+			okPrune := p.FactsAt(ret).Find(func(c ssa.Value, val bool) bool {
+				call, isCall := c.(*ssa.Call)
+				if !isCall || !val {
+					return false
+				}
+				if core.IsCallTo(call, "os", "IsNotExist") || core.IsCallTo(call, "errors", "Is") {
+					// the walk error parameter (not the error of the removal)
+					return len(sweep.Params) > 2 && core.DependsOn(call.Call.Args[0], core.SliceOpts{}, func(x ssa.Value) bool { return x == ssa.Value(sweep.Params[2]) })
+				}
+				return call.Call.IsInvoke() && call.Call.Method.Name() == "IsDir"
+			})
+			r.Check(okPrune, "R14.5", construct, p.InstrPos(ret), "the walk is pruned only below a missing path or a directory", "the sweep returns SkipDir for an entry that is not known to be a directory (e.g. after removing a stale record file): WalkDir then skips the remaining entries of that file's directory, so at most one stale record or stray temporary per directory is collected")
+		}
+	}
+	r.Analysed["gc_sweep_prunes"] = nSkip
 
 	// ---- R14.4
 	ms := mutatorSites(p, gc)
@@ -586,6 +729,24 @@ func checkIndexDerivedBounds(p *core.Prog, r *core.Result) {
 	if sp == nil {
 		r.Unk("R12.5", "anchor:label", "-", "package label not found")
 		return
+	}
+	zoneCache := map[*ssa.Function]*core.ZoneResult{}
+	zoneProved := func(in ssa.Instruction) bool {
+		fn := in.Parent()
+		res, ok := zoneCache[fn]
+		if !ok {
+			res = p.ZoneAnalyze(fn)
+			zoneCache[fn] = res
+		}
+		if res == nil {
+			return false
+		}
+		for _, s := range res.Sites {
+			if s.Instr == in {
+				return s.Proved
+			}
+		}
+		return false
 	}
 	type idx struct {
 		call *ssa.Call
@@ -701,6 +862,11 @@ func checkIndexDerivedBounds(p *core.Prog, r *core.Result) {
 					for _, e := range ph.Edges {
 						if c, ok := e.(*ssa.Call); ok {
 							if bi, ok := c.Call.Value.(*ssa.Builtin); ok && bi.Name() == "len" && c.Call.Args[0] == sl.X {
+								if zoneProved(sl) {
+									nOK++
+									r.OK("R12.5", construct, p.InstrPos(sl), "in range (established by the interval analysis of R12.7; the pattern of this rule does not apply)")
+									continue
+								}
 								r.Bad("R12.5", construct, p.InstrPos(sl), "bound = i+1 where i may be len(s) (no separator found) and i < len(s) is not established: parsing such a string panics")
 								return
 							}
@@ -732,6 +898,11 @@ func checkIndexDerivedBounds(p *core.Prog, r *core.Result) {
 					nOK++
 					r.OK("R12.5", construct, p.InstrPos(sl), "bound = index+%d with the index known to be found (0 <= %d <= %d)", k, k, ix.max)
 				} else {
+					if zoneProved(sl) {
+						nOK++
+						r.OK("R12.5", construct, p.InstrPos(sl), "in range (established by the interval analysis of R12.7; the pattern of this rule does not apply)")
+						continue
+					}
 					r.Bad("R12.5", construct, p.InstrPos(sl), "bound = index%+d of a %s result (found-ness established: %v; admissible offset 0..%d): for some label strings the slice bound is out of range and parsing panics", k, core.CalleeKey(core.Callee(ix.call)), found, ix.max)
 				}
 			}
@@ -843,17 +1014,24 @@ func checkCanonicalByConstruction(p *core.Prog, r *core.Result) {
 	r.Floor("R12.6", n, 3, "assignments of Label.Package in the module")
 }
 
-
-// labelBoundsExceptions: index/slice sites of package label that the zone analysis cannot decide, with the reason
-// they are safe (confirmed by reading). Keyed by function and source expression.
-var labelBoundsExceptions = map[string]string{
-	"(*label.lazybuf).index|b.buf[i]":    "called by nobody today; i < w <= len(buf) is the caller's obligation",
-	"(*label.lazybuf).index|b.s[i]":      "called by nobody today; i < w <= len(s) is the caller's obligation",
-	"(*label.lazybuf).append|b.s[b.w]":   "guarded by b.w < len(b.s); b.w >= 0 because it starts at 0 and is only incremented",
-	"(*label.lazybuf).append|b.s[:b.w]":  "w <= len(s): Clean appends at most one byte per byte read (w <= r <= len(s))",
-	"(*label.lazybuf).append|b.buf[b.w]": "len(buf) == len(s) and w < len(s) when a byte is appended: Clean writes no more bytes than it has read",
-	"(*label.lazybuf).string|b.s[:b.w]":  "w <= len(s) (as above)",
-	"(*label.lazybuf).string|b.buf[:b.w]": "w <= len(buf) == len(s) (as above)",
+// lazybufSite: the index/slice site operates on a field of a lazybuf (b.s / b.buf) inside a method of lazybuf. These
+// are the sites the zone analysis cannot decide: their safety is the invariant 0 <= w <= len(s) == len(buf), which
+// holds because Clean (the only user) appends at most one byte per byte it has read - a relation between a heap
+// field and a local of the caller. Confirmed by reading; excepted structurally (not by name or position).
+func lazybufSite(fn *ssa.Function, in ssa.Instruction) bool {
+	if fn.Signature.Recv() == nil || !strings.Contains(fn.Signature.Recv().Type().String(), "label.lazybuf") {
+		return false
+	}
+	var seq ssa.Value
+	switch x := in.(type) {
+	case *ssa.Index:
+		seq = x.X
+	case *ssa.IndexAddr:
+		seq = x.X
+	case *ssa.Slice:
+		seq = x.X
+	}
+	return seq != nil && (core.LoadOfField(seq, pkgLabel, "lazybuf", "s") || core.LoadOfField(seq, pkgLabel, "lazybuf", "buf"))
 }
 
 // checkLabelBounds implements R12.7.
@@ -864,7 +1042,6 @@ func checkLabelBounds(p *core.Prog, r *core.Result) {
 		return
 	}
 	n, nProved := 0, 0
-	used := map[string]bool{}
 	for _, fn := range p.ModuleFuncs() {
 		if fn.Pkg != lp || fn.Blocks == nil {
 			continue
@@ -899,9 +1076,8 @@ func checkLabelBounds(p *core.Prog, r *core.Result) {
 				}
 				r.OK("R12.7", construct, p.InstrPos(s.Instr), how)
 			default:
-				if why, ok := labelBoundsExceptions[key]; ok {
-					used[key] = true
-					r.Note("R12.7", construct, p.InstrPos(s.Instr), "not decided by the analysis (%s); accepted by reading: %s", s.Missing, why)
+				if lazybufSite(fn, s.Instr) {
+					r.Note("R12.7", construct, p.InstrPos(s.Instr), "not decided by the analysis (%s); accepted by reading: lazybuf's invariant 0 <= w <= len(s) == len(buf) holds because Clean appends at most one byte per byte read", s.Missing)
 					continue
 				}
 				r.Unk("R12.7", construct, p.InstrPos(s.Instr), "cannot show %s: for some label string this expression may be out of range and parsing panics", s.Missing)
